@@ -382,8 +382,9 @@ func (s *seqRunner) apply(op string) OpResult {
 			case trans <= m.max && w <= m.max:
 				s.fail("unjustified-overflow", name, "op %q: %d=%d (weight %d) removed with cause Overflow while the total weight (at most %d during this operation) does not exceed the maximum %d", op, ev.Key, ev.Val, w, trans, m.max)
 			}
-			if s.cfg.Expiry != "" && e.exp < m.now-tickNs && s.writtenAt[ev.Val] < m.now-tickNs {
-				// C13: an entry that expired more than a tick ago leaves as expired (the sweep precedes size eviction)
+			if s.cfg.Expiry != "" && e.exp < m.now-tickNs && s.writtenAt[ev.Val] < m.now-tickNs && w <= m.max {
+				// C13: an entry that expired more than a tick ago leaves as expired (the sweep precedes size eviction;
+				// an entry that alone exceeds the maximum is evicted when its event is applied, before any sweep)
 				s.fail("expiration-misreported", name, "op %q: %d=%d removed with cause Overflow at clock %d although its deadline %d passed more than one tick ago: its Expiration event is never delivered", op, ev.Key, ev.Val, m.now, e.exp)
 			}
 			if trans >= w {
